@@ -18,10 +18,12 @@ package function
 //@   ensures[C03,C06] call-is-table-entry: result1 == nil ==> ref(result0) == ref(function.Funcs[f.Name]) && !isnil(result0)
 
 //@ func NewHistogramOperator
+//@   assigns nothing
 //@   requires len(nextOps) >= 2 && stepsBatch >= 0
 //@   ensures[C08] never-fails: result1 == nil && result0 != nil
 
 //@ func NewFunctionOperator
+//@   assigns nothing
 //@   requires funcExpr != nil && opts != nil && stepsBatch >= 0
 //@   requires len(nextOps) >= 1 ==> len(funcExpr.Args) == len(nextOps)
 //@   ensures[C08] err-is-unsupported: result1 != nil ==> (result1.isNS || result1.isNI) && result0 == nil
@@ -212,6 +214,7 @@ package function
 //@ pred hopInv(o) = o != nil && o.pool != nil && o.vectorOp != nil &&
 //@     (forall j in 0..len(o.outputIndex) :: o.outputIndex[j] != nil ==> 0 <= o.outputIndex[j].outputID && o.outputIndex[j].outputID < len(o.seriesBuckets))
 //@ func (*histogramOperator).processInputSeries
+//@   assigns elems(execution/function.buckets), elems(execution/function.le)
 //@   requires hopInv(o) && allocated(vectors)
 //@   requires forall k in 0..len(vectors) :: len(vectors[k].SampleIDs) == len(vectors[k].Samples) && allocated(vectors[k].SampleIDs) && (forall j in 0..len(vectors[k].SampleIDs) :: vectors[k].SampleIDs[j] < len(o.outputIndex))
 //@   ensures[C18] never-fails: result1 == nil
